@@ -10,40 +10,41 @@ import (
 
 // Profile selects the language features a generated program may use.
 type Profile struct {
-	Name        string
-	MulDiv      bool
-	Lambdas     bool
-	StrMatch    bool
-	Interp      bool
-	RawStr      bool
-	Tuple3      bool
-	InnerFun    bool
-	IfOnly      bool
-	UnionNoDef  bool // union match without default (exhaustive)
-	FieldPerm   bool // record literal fields in another order / Rec. prefix
-	Partial     bool
-	Pipes       bool
-	HigherOrder bool // user functions with function-typed parameters
-	CompositeEq bool // = / <> on records, tuples, slices, unions
-	UsField     bool // _.Field
-	SliceLib    bool
-	StringsLib  bool
-	TopVars     bool
-	Shadow      bool
-	LowerFields bool // records with lower-case field names
-	Recursion   bool
-	StrCompare  bool
-	GenericFns  bool // unannotated generic helper functions
-	MinFuncs    int
-	MaxFuncs    int
-	MaxDepth    int
+	Name         string
+	MulDiv       bool
+	Lambdas      bool
+	StrMatch     bool
+	Interp       bool
+	RawStr       bool
+	Tuple3       bool
+	InnerFun     bool
+	IfOnly       bool
+	UnionNoDef   bool // union match without default (exhaustive)
+	FieldPerm    bool // record literal fields in another order / Rec. prefix
+	Partial      bool
+	Pipes        bool
+	HigherOrder  bool // user functions with function-typed parameters
+	CompositeEq  bool // = / <> on records, tuples, slices, unions
+	UsField      bool // _.Field
+	SliceLib     bool
+	StringsLib   bool
+	TopVars      bool
+	Shadow       bool
+	LowerFields  bool // records with lower-case field names
+	Recursion    bool
+	StrCompare   bool
+	GenericFns   bool // unannotated generic helper functions
+	LetRhsInline bool // the right-hand side of a let is always a one-line expression
+	MinFuncs     int
+	MaxFuncs     int
+	MaxDepth     int
 }
 
 var ProfileC01 = Profile{Name: "c01", MulDiv: true, Lambdas: true, StrMatch: true, Interp: true, RawStr: true, Tuple3: true, InnerFun: true, IfOnly: true,
 	UnionNoDef: true, FieldPerm: true, Partial: true, Pipes: true, HigherOrder: true, CompositeEq: true, UsField: true, SliceLib: true, StringsLib: true,
 	TopVars: true, Shadow: true, LowerFields: true, Recursion: true, StrCompare: true, GenericFns: true, MinFuncs: 3, MaxFuncs: 7, MaxDepth: 4}
 
-var ProfileTiny = Profile{Name: "tinyfo", Partial: true, Pipes: true, SliceLib: false, MinFuncs: 2, MaxFuncs: 5, MaxDepth: 3}
+var ProfileTiny = Profile{Name: "tinyfo", Partial: true, Pipes: true, SliceLib: true, StringsLib: true, HigherOrder: true, CompositeEq: true, Shadow: true, FieldPerm: true, LetRhsInline: true, IfOnly: true, UnionNoDef: true, MinFuncs: 2, MaxFuncs: 5, MaxDepth: 3}
 
 type vinfo struct {
 	name string
@@ -134,13 +135,8 @@ func (g *Gen) strLitVal() string { return core.Pick(g.R, wordPool) }
 // entry point is `Run ()`.
 func Generate(r *core.Rand, p Profile, pkg string) (*Program, map[string]int) {
 	g := &Gen{R: r, P: p, shows: map[string]string{}, Features: map[string]int{}}
-	g.prog = &Program{Pkg: pkg, Imports: []string{"frt"}}
-	if p.SliceLib || p.Lambdas || p.Name == "c01" {
-		g.prog.Imports = append(g.prog.Imports, "slice")
-	}
-	if p.StringsLib || p.Name == "c01" {
-		g.prog.Imports = append(g.prog.Imports, "strings")
-	}
+	// the observers use slice.Map and strings.Concat, so all three packages are always imported
+	g.prog = &Program{Pkg: pkg, Imports: []string{"frt", "slice", "strings"}, Tiny: p.Name == "tinyfo"}
 	g.genTypes()
 	g.genPrelude()
 	g.genObservers()
@@ -424,6 +420,27 @@ func (g *Gen) genFunc(pure bool) {
 			a := core.Pick(g.R, []*Type{TInt, TString})
 			b := core.Pick(g.R, []*Type{TInt, TString, TBool})
 			t = TFunc(a, b)
+			if !g.P.Lambdas {
+				// without lambdas a function value must be a named pure function or a partial
+				// application of one: take the type of the last k parameters of such a function
+				var cands []*Type
+				for _, pf := range g.funcs {
+					if pf.Pure && !pf.Rec && len(pf.Params) >= 1 {
+						for k := 1; k <= len(pf.Params) && k <= 2; k++ {
+							var ps []*Type
+							for _, pp := range pf.Params[len(pf.Params)-k:] {
+								ps = append(ps, pp.T)
+							}
+							cands = append(cands, TFunc(append(ps, pf.Ret)...))
+						}
+					}
+				}
+				if len(cands) == 0 {
+					t = g.pickParamType()
+				} else {
+					t = core.Pick(g.R, cands)
+				}
+			}
 			g.feat("func-typed-param")
 		} else {
 			t = g.pickParamType()
@@ -591,7 +608,12 @@ func (g *Gen) block(t *Type, outer *scope, d int, fx bool, funcTop bool) *Block 
 		switch k := g.R.Intn(10); {
 		case k < 5: // let
 			vt := g.pickValueType()
-			e := g.blockExpr(vt, sc, d-1, fx)
+			var e Expr
+			if g.P.LetRhsInline {
+				e = g.expr(vt, sc, d-1, fx)
+			} else {
+				e = g.blockExpr(vt, sc, d-1, fx)
+			}
 			name := g.letName(sc)
 			b.Stmts = append(b.Stmts, &Let{name, e})
 			u := sc.add(name, vt)
@@ -978,6 +1000,9 @@ func (g *Gen) lit(t *Type, sc *scope, d int, fx bool) Expr {
 		return &UnitLit{}
 	case KSlice:
 		n := g.R.Intn(4)
+		if g.P.Name == "tinyfo" && n == 0 {
+			n = 1 // no explicit type arguments in tinyfo, hence no slice.New<T> ()
+		}
 		s := &SliceLit{Elem: t.Elem()}
 		for i := 0; i < n; i++ {
 			s.Elems = append(s.Elems, g.expr(t.Elem(), sc, d-1, fx))
@@ -1068,10 +1093,33 @@ func (g *Gen) funcValue(t *Type, sc *scope, d int, fx bool) Expr {
 		}
 	}
 	if !g.P.Lambdas {
-		// tinyfo: partial application of a prelude function
-		if len(ps) == 1 && ps[0].K == KInt && t.Result().K == KInt {
-			return &Call{Fn: v("evI"), Args: []Expr{&StrLit{"pa"}}}
+		// no lambdas in this profile: a named pure function or a partial application of one
+		for _, f := range g.funcs {
+			if !f.Pure || f.Rec || f == g.curFunc || len(f.Params) < len(ps) {
+				continue
+			}
+			k := len(f.Params) - len(ps)
+			ok := f.Ret.Eq(t.Result())
+			for i, p := range ps {
+				if !f.Params[k+i].T.Eq(p) {
+					ok = false
+				}
+			}
+			if !ok {
+				continue
+			}
+			if k == 0 {
+				g.feat("function-as-value")
+				return v(f.Name)
+			}
+			var args []Expr
+			for i := 0; i < k; i++ {
+				args = append(args, g.expr(f.Params[i].T, sc, 1, false))
+			}
+			g.feat("partial-application-as-value")
+			return &Call{Fn: v(f.Name), Args: args}
 		}
+		panic("no function value of type " + t.String() + " without lambdas")
 	}
 	lam := &Lambda{}
 	lsc := sc.child(true)
